@@ -105,6 +105,7 @@ def select1(ctx: Ctx, chk) -> None:
         pass
 
     gen = _Sel()  # .elt, .iter, .pred, .default, .kname, .node
+    is_max = False
     nexts = [n for n in ctx.own_nodes(f) if isinstance(n, ast.Call) and isinstance(n.func, ast.Name) and n.func.id == "next"]
     loops = [n for n in f.node.body if isinstance(n, ast.For)]
     if len(nexts) == 1 and len(nexts[0].args) == 2 and isinstance(nexts[0].args[0], ast.GeneratorExp) and len(rets) == 1:
@@ -162,8 +163,29 @@ def select1(ctx: Ctx, chk) -> None:
             return e
 
         gen.elt, gen.iter, gen.pred, gen.default, gen.kname, gen.node = uncast(sel_ret.value), lp.iter, sel_pred, uncast(after[0].value), lp.target.id, lp
+    elif len(rets) == 1 and len([n for n in ctx.own_nodes(f) if isinstance(n, ast.Call) and isinstance(n.func, ast.Name) and n.func.id == "max"]) == 1:
+        # shape (c): newest = max((k for k in <candidates> if <pred>), default=<oldest key>) ; return table[newest]
+        mx = [n for n in ctx.own_nodes(f) if isinstance(n, ast.Call) and isinstance(n.func, ast.Name) and n.func.id == "max"][0]
+        dk = [kw.value for kw in mx.keywords if kw.arg == "default"]
+        if not (len(mx.args) == 1 and isinstance(mx.args[0], ast.GeneratorExp) and len(dk) == 1):
+            raise AnalysisError("SELECT-1: max(...) selection shape not recognised")
+        ge = mx.args[0]
+        if len(ge.generators) != 1 or len(ge.generators[0].ifs) != 1 or not isinstance(ge.generators[0].target, ast.Name) or norm(ge.elt) != ge.generators[0].target.id:
+            raise AnalysisError("SELECT-1: max(...) generator shape not recognised")
+        is_max = True
+        rv = rets[0].value
+        while isinstance(rv, ast.Call) and norm(rv.func) == "cast" and len(rv.args) == 2:
+            rv = rv.args[1]
+        chk.instance(rule)
+        if isinstance(rv, ast.Subscript) and norm(rv.value) == "PROTOCOL_VERSIONS" and "max(" in cn.canon(rv.slice):
+            chk.ok(rule, f"{f.fq}::return", "returns the table entry of the selected key", ctx.loc(f, rets[0]), sample=False)
+        else:
+            chk.refute(rule, f"{f.fq}::return", f"get_protocol returns `{cn.canon(rets[0].value)[:80]}`, not the table entry of the selected key", ctx.loc(f, rets[0]))
+        kn = ge.generators[0].target.id
+        gen.elt = ast.parse(f"PROTOCOL_VERSIONS[{kn}]", mode="eval").body
+        gen.iter, gen.pred, gen.default, gen.kname, gen.node = ge.generators[0].iter, ge.generators[0].ifs[0], dk[0], kn, ge
     else:
-        raise AnalysisError("SELECT-1: get_protocol is neither `next((table[k] for k in <order> if <pred>), default)` nor `for k in <order>: if <pred>: return table[k]` + fallback")
+        raise AnalysisError("SELECT-1: get_protocol is neither `next((table[k] for k in <order> if <pred>), default)` nor `for k in <order>: if <pred>: return table[k]` + fallback nor `table[max((k for k in <keys> if <pred>), default=<oldest>)]`")
     kname = gen.kname
 
     def deref(e):
@@ -201,7 +223,18 @@ def select1(ctx: Ctx, chk) -> None:
     it = g.iter
     keys = list(ctx.versions)
     order = None
-    if isinstance(it, ast.Call) and isinstance(it.func, ast.Name) and it.func.id == "sorted" and it.args and norm(it.args[0]) in ("PROTOCOL_VERSIONS", "PROTOCOL_VERSIONS.keys()", "list(PROTOCOL_VERSIONS)"):
+    if is_max:
+        # max() picks the newest candidate whatever the order; the candidates must be the table's keys as versions
+        src = it
+        if isinstance(src, ast.Name):
+            dd = ctx.prog.resolve_name(f.module, src.id)
+            src = dd.obj if dd is not None and dd.kind == "const" else src
+        txt = norm(src)
+        if txt in ("PROTOCOL_VERSIONS", "PROTOCOL_VERSIONS.keys()", "list(PROTOCOL_VERSIONS)") or ("AwesomeVersion(" in txt and "PROTOCOL_VERSIONS" in txt and " if " not in txt):
+            order = sorted(keys, key=vtuple, reverse=True)
+        else:
+            raise AnalysisError(f"SELECT-1: candidates `{txt[:60]}` of the max() selection not recognised")
+    elif isinstance(it, ast.Call) and isinstance(it.func, ast.Name) and it.func.id == "sorted" and it.args and norm(it.args[0]) in ("PROTOCOL_VERSIONS", "PROTOCOL_VERSIONS.keys()", "list(PROTOCOL_VERSIONS)"):
         rev = False
         keyfn = None
         for kw in it.keywords:
@@ -230,7 +263,16 @@ def select1(ctx: Ctx, chk) -> None:
     chk.instance(rule)
     dflt = nx.args[1]
     d = ctx.prog.resolve_expr(f.module, dflt)
-    if d is not None and d.kind == "module" and d.obj is I.vmod("1.4"):
+    if is_max:
+        try:
+            dv = ctx.folder.plain(ctx.folder.fold(f.module, dflt))
+        except Exception:  # noqa: BLE001
+            dv = None
+        if dv == "1.4":
+            chk.ok(rule, f"{f.fq}::default", "fallback key is '1.4'", ctx.loc(f, dflt), sample=False)
+        else:
+            chk.refute(rule, f"{f.fq}::default", f"fallback key `{norm(dflt)}` is not '1.4': versions older than 1.5 must select 1.4", ctx.loc(f, dflt))
+    elif d is not None and d.kind == "module" and d.obj is I.vmod("1.4"):
         chk.ok(rule, f"{f.fq}::default", "fallback is protocol_14", ctx.loc(f, dflt), sample=False)
     else:
         chk.refute(rule, f"{f.fq}::default", f"fallback `{norm(dflt)}` is not protocol 1.4: versions older than 1.5 must select 1.4", ctx.loc(f, dflt))
@@ -717,6 +759,40 @@ def _always_reraises(handler: ast.ExceptHandler) -> bool:
     return ends(handler.body)
 
 
+def suppressing_withs(ctx: Ctx, fi, exc_fq: str) -> list:
+    """`with` statements of fi, around code that awaits, whose context manager can swallow exc_fq:
+    contextlib.suppress(<a base of it>), or a repository class whose __exit__ / __aexit__ can return something truthy.
+    (Managers the parse-time desugaring could translate are try statements by now and judged as such.)"""
+    out = []
+    eea = ctx.eea()
+    for w in [x for x in ctx.own_nodes(fi) if isinstance(x, (ast.With, ast.AsyncWith))]:
+        if not any(isinstance(x, ast.Await) for b in w.body for x in ast.walk(b)):
+            continue
+        for it in w.items:
+            ce = it.context_expr
+            if not isinstance(ce, ast.Call):
+                continue
+            d = ctx.prog.resolve_expr(ctx.prog.origin(fi.module, ce), ce.func) if isinstance(ce.func, (ast.Name, ast.Attribute)) else None
+            if d is None:
+                continue
+            if d.kind == "external" and d.obj.rsplit(".", 1)[-1] == "suppress":
+                for a in ce.args:
+                    da = ctx.prog.resolve_expr(ctx.prog.origin(fi.module, a), a) if isinstance(a, (ast.Name, ast.Attribute)) else None
+                    full = da.obj.fq if da is not None and da.kind == "class" else da.obj if da is not None and da.kind == "external" else None
+                    if full is None or eea.issub(exc_fq, full):
+                        out.append((w, f"`{norm(ce)[:60]}` suppresses it"))
+            elif d.kind == "class":
+                ex = d.obj.find_method("__aexit__") or d.obj.find_method("__exit__")
+                if ex is None:
+                    continue
+                for r in [n for n in ctx.own_nodes(ex) if isinstance(n, ast.Return) and n.value is not None]:
+                    if isinstance(r.value, ast.Constant) and not r.value.value:
+                        continue
+                    out.append((w, f"{d.obj.name}.{ex.name} can return `{norm(r.value)[:40]}` (line {r.lineno}): a truthy result makes the `with` statement swallow the exception"))
+                    break
+    return out
+
+
 def gate_esc(ctx: Ctx, chk) -> None:
     rule = "GATE-ESC"
     chk.rule(rule, "a refusal reaches the caller: on the way from the type gate to Gateway.listen (the internal / stream handlers, their decorator wrappers, the dispatch helper and listen itself) no `except` clause that can catch UnsupportedMessageError lets the handling go on without raising - a refused type is never accepted after all, whatever the gateway's state (for example while no version has been reported)")
@@ -750,4 +826,8 @@ def gate_esc(ctx: Ctx, chk) -> None:
                 chk.ok(rule, key, "the clause ends in a raise on every path", ctx.loc(fi, h), sample=n <= 2)
             else:
                 chk.refute(rule, key, f"`except {norm(h.type) if h.type is not None else ''}` in {f.qualname} can catch the refusal of an unsupported type and complete without raising: a type that does not exist in the active protocol is then accepted (yielded as handled) instead of refused", ctx.loc(fi, h))
+        for w, why in suppressing_withs(ctx, fi, UNS):
+            n += 1
+            chk.instance(rule)
+            chk.refute(rule, f"{f.fq}::with::{norm(w.items[0].context_expr)[:50]}", f"the `with` statement in {f.qualname} can swallow the refusal of an unsupported type ({why}): the type is then accepted (yielded as handled) instead of refused", ctx.loc(fi, w))
     chk.notes[f"{rule}:handlers"] = n
